@@ -75,7 +75,7 @@ def vertexProbe (g : Graph Float) (v : Nat) : String :=
 def graphOut (g : Graph Float) : String :=
   let nE := g.nEdges
   let nV := g.nVertices
-  let pv := max nV g.adj.length
+  let pv := max (max nV g.adj.length) g.rev.length
   joinSp (["ok", toString nE, toString nV, toString g.adj.length, toString g.rev.length]
     ++ (List.range (nE + 1)).map (edgeProbe g)
     ++ (List.range (pv + 1)).map (vertexProbe g)
@@ -85,6 +85,13 @@ def loadErrOut : LoadErr → String
   | .io => "err io"
   | .dataset => "err dataset"
   | .csv => "err csv"
+
+def tableRowP : P (Row Nat) := do
+  let t ← next
+  match t with
+  | "b" => pure .bad
+  | "r" => do let x ← nat; pure (.ok x)
+  | _ => failure
 
 def pairP : P (Nat × Nat) := do
   let k ← nat; let v ← nat
@@ -181,12 +188,17 @@ def case : P String := do
     | .error e => pure (loadErrOut e)
     | .ok g => pure (graphOut g)
   | "table" => do
-    -- per-edge table: `n` rows of raw 64-bit payloads, and the edge ids to look up
+    -- per-edge table: rows of raw 64-bit payloads (or undecodable), and the edge ids to look up
     let _descr ← next
-    let t ← listOf nat
+    let readable ← bool
+    let rows ← listOf tableRowP
     let probes ← listOf nat
     endOfLine
-    pure (joinSp (toString t.length :: probes.map (fun e => optOut toString (tableRow t e))))
+    match readTable readable rows with
+    | .error _ => pure (if readable then s!"err cb {callbackCount rows}" else "err")
+    | .ok t =>
+      pure (joinSp (["ok", toString t.length, "cb", toString (callbackCount rows)]
+        ++ probes.map (fun e => optOut toString (tableRow t e))))
   | _ => failure
 
 def run (line : String) : String := Proto.run case line
